@@ -173,8 +173,8 @@ impl Model for M {
 fn model(tier: &str, wake_driven: bool) -> (M, BfsCfg) {
   let thorough = tier == "thorough";
   (
-    M { max_writes: if thorough { 3 } else { 2 }, max_waits: 2, readers: vec![(0, true), (1, true), (2, false)], wake_driven },
-    BfsCfg { max_depth: if thorough { 9 } else { 7 }, threads: 16, wall_cap_s: if thorough { 600.0 } else { 20.0 }, state_cap: 10_000_000, merge: true },
+    M { max_writes: if thorough { 4 } else { 2 }, max_waits: if thorough { 3 } else { 2 }, readers: vec![(0, true), (1, true), (2, false)], wake_driven },
+    BfsCfg { max_depth: if thorough { 12 } else { 7 }, threads: 16, wall_cap_s: if thorough { 900.0 } else { 20.0 }, state_cap: 10_000_000, merge: true },
   )
 }
 
@@ -270,6 +270,70 @@ fn sync_cases(rep: &mut Report) {
   rep.add_u64("traces_validated_against_impl", n);
 }
 
+/// Synchronous form, the two ways its completion channel can become readable without a token: the
+/// command queue is full (the command, and with it the token sender, is dropped on the spot), and a
+/// later wait call replaces the pending one in the Writer.  Neither is an acknowledgment.
+fn sync_no_token_cases(rep: &mut Report) {
+  use std::time::{Duration, Instant};
+  use rustdds::verif::common::Msg;
+  let mut n = 0u64;
+  // (a) full command queue
+  for queue in [1usize, 2, 3] {
+    n += 1;
+    let mut sim = SimWriter::new(0, false, 1024, queue, true);
+    sim.match_reader(0, true, false);
+    for i in 0..queue {
+      // straight into the queue, the Writer does not get to run
+      sim.datawriter().write(Msg::new(1, 100 + i as u32, 0), None).expect("MACHINERY: queue smaller than announced");
+    }
+    let t0 = Instant::now();
+    let res = sim.datawriter().wait_for_acknowledgments(Duration::from_millis(40)).map_err(|e| format!("{e:?}"));
+    let case = json!({"no_token": "command queue full", "queue": queue, "readers": [[0, true]], "acknowledged": "nothing"});
+    if n == 1 {
+      rep.push_sample(json!({"sync_case": case, "result": format!("{res:?}"), "elapsed_us": t0.elapsed().as_micros() as u64}));
+    }
+    if res == Ok(true) {
+      rep.violation("C20:sync-premature-success", json!({"sync_case": case}), &format!("wait_for_acknowledgments reported success after {:?} although the matched reliable reader has acknowledged nothing and the {queue} queued writes have not even been sent ({case})", t0.elapsed()));
+    }
+    sim.process_commands();
+  }
+  // (b) a pending wait is replaced by a later one
+  for acked_before_second in [false, true] {
+    n += 1;
+    let mut sim = SimWriter::new(0, false, 1024, 64, true);
+    sim.match_reader(0, true, false);
+    sim.match_reader(1, true, false);
+    sim.dw_write(1, 0).unwrap();
+    sim.dw_write(1, 0).unwrap();
+    let dw = sim.datawriter() as *const _ as usize;
+    let first = std::thread::spawn(move || {
+      // SAFETY: the SimWriter (owner of the boxed DataWriter) outlives this thread: joined below
+      let dw: &rustdds::with_key::DataWriter<Msg> = unsafe { &*(dw as *const _) };
+      dw.wait_for_acknowledgments(Duration::from_millis(400)).map_err(|e| format!("{e:?}"))
+    });
+    std::thread::sleep(Duration::from_millis(30));
+    sim.process_commands();
+    if acked_before_second {
+      sim.acknack(0, 3, &[]); // reader 1 still owes its acknowledgment
+    }
+    let second = std::thread::spawn(move || {
+      let dw: &rustdds::with_key::DataWriter<Msg> = unsafe { &*(dw as *const _) };
+      dw.wait_for_acknowledgments(Duration::from_millis(60)).map_err(|e| format!("{e:?}"))
+    });
+    std::thread::sleep(Duration::from_millis(20));
+    sim.process_commands();
+    let (r1, r2) = (first.join().expect("MACHINERY: waiter thread panicked"), second.join().expect("MACHINERY: waiter thread panicked"));
+    let case = json!({"no_token": "pending wait replaced by a second wait call", "readers": [[0, true], [1, true]], "acknowledged": if acked_before_second { "reader 0 only" } else { "nothing" }});
+    for (which, r) in [("first", &r1), ("second", &r2)] {
+      if *r == Ok(true) {
+        rep.violation("C20:sync-premature-success", json!({"sync_case": case}), &format!("the {which} of two overlapping wait_for_acknowledgments calls reported success although reader 1 has acknowledged nothing ({case})"));
+      }
+    }
+  }
+  rep.set("sync_no_token_cases", json!(n));
+  rep.add_u64("traces_validated_against_impl", n);
+}
+
 pub fn replay(doc: &serde_json::Value) -> i32 {
   if doc["replay"].get("sync_case").is_some() {
     println!("synchronous case (real time): re-run `./check C20 --tier quick`; case = {}", doc["replay"]["sync_case"]);
@@ -311,6 +375,7 @@ pub fn run(tier: &str) -> i32 {
     rep.machinery_errors.extend(errs);
   }
   sync_cases(&mut rep);
+  sync_no_token_cases(&mut rep);
   rep.assumptions = vec![
     "One wait outstanding at a time (a second WaitForAcknowledgments command replaces the writer's waiter; concurrent waits are outside the statement)".into(),
     "Puppet ACKNACK bases are monotone".into(),
